@@ -18,6 +18,7 @@ import (
 	"strings"
 
 	"github.com/gokrazy/rsync/internal/rsyncdconfig"
+	"github.com/gokrazy/rsync/internal/rsyncopts"
 	"github.com/gokrazy/rsync/internal/rsyncos"
 	"github.com/google/shlex"
 	"golang.org/x/crypto/ssh"
@@ -29,6 +30,31 @@ type anonssh struct {
 	cfg   *rsyncdconfig.Config
 	main  mainFunc
 	osenv *rsyncos.Env
+
+	// anonymous is set when the listener admits everybody (no
+	// authorized_keys): such sessions can only talk to the rsync daemon.
+	anonymous bool
+}
+
+// daemonOnly reports an error unless cmdline starts the rsync daemon
+// protocol on the session channel (rsync --server --daemon .), which is
+// the only thing an unauthenticated peer may do: any other command line
+// would run an rsync client or a command-mode server with access to the
+// whole file system.
+func daemonOnly(cmdline []string) error {
+	errRefused := errors.New("anonymous SSH sessions can only use the rsync daemon protocol (rsync --server --daemon .)")
+	if len(cmdline) < 2 {
+		return errRefused
+	}
+	env := &rsyncos.Env{Stderr: io.Discard, NoExit: true}
+	pc := rsyncopts.NewContext(rsyncopts.NewOptionsWithGokrazyDefaults(env))
+	if err := pc.ParseArguments(env, cmdline[1:]); err != nil {
+		return errRefused
+	}
+	if !pc.Options.Daemon() || !pc.Options.Server() {
+		return errRefused
+	}
+	return nil
 }
 
 // env is a Environment Variable request as per RFC4254 6.4.
@@ -73,6 +99,11 @@ func (s *session) request(ctx context.Context, req *ssh.Request) error {
 		}
 
 		s.anonssh.osenv.Logf("cmdline: %q", cmdline)
+		if s.anonssh.anonymous {
+			if err := daemonOnly(cmdline); err != nil {
+				return err
+			}
+		}
 		// 2021/09/12 21:25:34 cmdline: ["rsync" "--server" "--daemon" "."]
 		go func() {
 			stderr := s.channel.Stderr()
@@ -278,9 +309,10 @@ func Serve(ctx context.Context, osenv *rsyncos.Env, ln net.Listener, listener *L
 	}()
 
 	as := &anonssh{
-		cfg:   cfg,
-		main:  main,
-		osenv: osenv,
+		cfg:       cfg,
+		main:      main,
+		osenv:     osenv,
+		anonymous: listener.authorizedKeys == nil,
 	}
 
 	config := &ssh.ServerConfig{
